@@ -52,6 +52,10 @@ FORMULA = {
     'Formula:HO3P': PHOSPHO,
     'Formula:[2H2]H-2': {'2H': 2, 'H': -2},
     'Formula:C2H3NO': CAM,
+    # the same element / isotope written in two parts of one formula accumulates
+    'Formula:C2H3[15N1]H2O1': {'C': 2, 'H': 5, '15N': 1, 'O': 1},
+    'Formula:[13C2]H2[13C1]': {'13C': 3, 'H': 2},
+    'Formula:C2[13C1]C3H2': {'C': 5, '13C': 1, 'H': 2},
 }
 
 GLYCAN = {
